@@ -225,8 +225,9 @@ FINITE_ITERATORS = (
 
 def run_e1c(prog, rep):
     # audit of the program as written: no helper inlining / loop desugaring (see facts.Program.raw)
-    with prog.raw():
-        return _run_e1c(prog, rep)
+    # inlined view (absorbed helpers are judged inside their callers): a loop whose consuming call, empty-match guard or cursor
+    # step moved into a new helper keeps its progress argument; failure exits of spliced helpers are return carriers
+    return _run_e1c(prog, rep)
 
 
 def _run_e1c(prog, rep):
